@@ -462,7 +462,6 @@ func writesOrFormats(g *ssa.Function, isFormatter func(*ssa.Function) bool) bool
 	return found
 }
 
-
 func c10Quote(c *Ctx, kindFmt map[string]*ssa.Function) {
 	const rule = "C10.quote"
 	type rep struct {
